@@ -2,6 +2,17 @@
 """Prints the markdown table of seeded breaks (DESIGN.md §7) from /verif/seeded/*/meta.json."""
 import json, glob, os
 ONE = {
+ 'C01-3': ('selector filter loops over the gate list and clamps the group range to it', 'description whose last selector group end exceeds the number of gates'),
+ 'C01-4': ('commit-mode range-check widths rounded up to a multiple of 16', 'description with proof_of_work_bits 19..31 (not a multiple of 16), commit mechanism only'),
+ 'C05-3': ('`Inverse`: hasInv derived from the prover-supplied inverse', 'dishonest `InverseHint` returning exactly 0 for a non-zero operand'),
+ 'C05-4': ('`RangeCheck` under the commit checker collects the 64-bit value instead of its two limbs', 'commit mechanism only, forged limbs (0, x), true remainder < 2^32-1'),
+ 'C05-5': ('off-by-one in a single-word fast path of `ReduceHint` (`x > m`)', 'Reduce input exactly p (honest prover rejected)'),
+ 'C06-3': ('native checks collected like commit checks but never emitted', 'natively range-checking builder only'),
+ 'C06-4': ('`RangeCheckWithMaxBits` returns early for widths >= 64', 'widths 64, 96, 144, 192 with a value >= 2^n'),
+ 'C13-3': ('domain generator cached in a package-level sync.Once (not keyed by nLog)', 'two different LDE sizes in one process'),
+ 'C13-4': ('`InverseExtension` stops asserting non-zero AND `friCombineInitial` drops its hasInv assertion (two sites)', 'opening point equal to the query domain point'),
+ 'C16-3': ('number of asserted rounds derived from `max_quotient_degree_factor`', 'quotient_degree_factor != max_quotient_degree_factor'),
+ 'C16-4': ('`k_i*zeta` cached on the PlonkChip after the first call', 'one chip verifying two opening sets with different zeta'),
  'C01-1': ('Merkle check skipped when a proof has fewer siblings than cap_height (last commit layer: 3 siblings)', 'tamper one of the 84 `Steps[1].MerkleProof.Siblings`'),
  'C01-2': ('first coset shift hard-wired to 1 (`k_is[0]` never read)', 'circuit description differing in `k_is[0]` only'),
  'C02-1': ('`Reduce` quotient width 130 bits for non-commit backends', 'honest proofs whose FRI combination has a 131-bit quotient (test.json k>=1, circuit B k>=4), native/plain only'),
